@@ -83,32 +83,27 @@ Theorem C17_method_body_table : forall c q resps i s s',
 Proof. exact table. Qed.
 Print Assumptions C17_method_body_table.
 
-(* Termination.  Full statement: at most max(1, max_redirects) requests are made.  The faithful
-   model refutes it for max_redirects = 0, which the code treats as "no limit"
-   (`if max_redirects and redirects >= max_redirects`): *)
-Theorem C17_terminates_refuted : exists c q resps,
-  (Z.of_nat (length (sents (run c q resps))) > Z.max 1 (c_max c))%Z.
-Proof.
-  exists {| c_max := 0; c_allow := true |},
-         {| q_meth := MGet; q_url := {| u_org := {| o_sch := 0; o_host := 0; o_port := None |}; u_cred := None; u_path := 0 |};
-            q_auth := None; q_cookie := None; q_pauth := None; q_reqck := None; q_body := BNone; q_clen := false; q_jar := [] |},
-         [ {| rs_status := 302; rs_setcookie := []; rs_loc := LRel 1; rs_unsent := false |};
-           {| rs_status := 302; rs_setcookie := []; rs_loc := LRel 2; rs_unsent := false |} ].
-  vm_compute. reflexivity.
-Qed.
-Print Assumptions C17_terminates_refuted.
-
-(* What holds: for every max_redirects other than 0 (missing for the full statement: the value 0). *)
-Theorem C17_terminates_partial : forall c q resps,
-  c_max c <> 0%Z -> (Z.of_nat (length (sents (run c q resps))) <= Z.max 1 (c_max c))%Z.
+(* Termination: at most max(1, max_redirects) requests are made, for EVERY value of max_redirects
+   (the initial request is always made).  Since /repo 8af1114 the value 0 means "follow no redirect";
+   before, `if max_redirects and ...` made it "no limit" and this statement was refuted. *)
+Theorem C17_terminates : forall c q resps,
+  (Z.of_nat (length (sents (run c q resps))) <= Z.max 1 (c_max c))%Z.
 Proof. exact terminates. Qed.
-Print Assumptions C17_terminates_partial.
+Print Assumptions C17_terminates.
 
-(* ... and the call has then finished once that many responses have been received, whatever they were *)
-Theorem C17_terminates_outcome_partial : forall c q resps,
-  c_max c <> 0%Z -> (Z.max 1 (c_max c) <= Z.of_nat (length resps))%Z -> result (run c q resps) <> Pending.
+(* ... and the call has finished once that many responses have been received, whatever they were *)
+Theorem C17_terminates_outcome : forall c q resps,
+  (Z.max 1 (c_max c) <= Z.of_nat (length resps))%Z -> result (run c q resps) <> Pending.
 Proof. exact terminates_outcome. Qed.
-Print Assumptions C17_terminates_outcome_partial.
+Print Assumptions C17_terminates_outcome.
+
+(* max_redirects = 0: the first redirect already ends the call with TooManyRedirects, one request made
+   (the former refutation witness) *)
+Example C17_example_max_redirects_zero :
+  let t := run {| c_max := 0; c_allow := true |} ex_q ex_resps in
+  length (sents t) = 1%nat /\ disps t = [DClosed] /\ result t = Failed ETooManyRedirects [(307, ex_A, 0)].
+Proof. vm_compute. repeat split; reflexivity. Qed.
+Print Assumptions C17_example_max_redirects_zero.
 
 (* Non-HTTP targets: every request goes to an http(s) URL, and a response whose Location is missing,
    unparsable, host-less or has another scheme is never followed. *)
